@@ -536,7 +536,24 @@ func matchKnown(known []knownFinding, prop, sig string) *knownFinding {
 	return nil
 }
 
+// reproduces re-executes a failing plan in a fresh process. The simulator decides every choice
+// it owns, but the code under test can still draw on sources it does not (Go randomises the
+// iteration order of maps): a violation that depends on such a source does not show in every
+// execution of the same plan, so a plan gets a few attempts before the sighting is put down
+// to the infrastructure.
 func (c *SuperCfg) reproduces(bin string, p *Plan, sig string) (bool, string) {
+	var ok bool
+	var msg string
+	for attempt := 0; attempt < 5 && !ok; attempt++ {
+		ok, msg = c.reproducesOnce(bin, p, sig)
+		if !ok && attempt == 0 {
+			fmt.Fprintf(os.Stderr, "NOTE: %s of run %d did not show in the first re-execution (%s): trying again\n", sig, p.Run, msg)
+		}
+	}
+	return ok, msg
+}
+
+func (c *SuperCfg) reproducesOnce(bin string, p *Plan, sig string) (bool, string) {
 	r, stderr, code := c.execPlan(bin, p, "repro", 120*time.Second)
 	if r != nil {
 		for _, v := range r.Viols {
